@@ -178,6 +178,24 @@ def run_harness(scratch, pkg_rel, harness_dir, test_name, env, mask_tests=True, 
     if race:
         cmd.append("-race")
     cmd.append("./" + os.path.relpath(pkg, mod))
+    if os.environ.get("VERIF_COVER"):
+        # development aid (tools/covreport.py): statement coverage of the package by the harness.  go's cover
+        # tool ignores -overlay, so the overlay is materialised in a scratch copy of the module instead.
+        cp = os.path.join(scratch, "covmod")
+        shutil.rmtree(cp, ignore_errors=True)
+        shutil.copytree(mod, cp, ignore=shutil.ignore_patterns(".git"))
+        for dst, srcf in repl.items():
+            d2 = os.path.join(cp, os.path.relpath(dst, mod))
+            if srcf == "":
+                if os.path.exists(d2):
+                    os.remove(d2)
+            else:
+                os.makedirs(os.path.dirname(d2), exist_ok=True)
+                shutil.copy(srcf, d2)
+        n = len(glob.glob(os.environ["VERIF_COVER"] + ".*"))
+        cmd = [c for c in cmd if c not in ("-overlay", ov)]
+        cmd[-1:-1] = ["-covermode=atomic", "-coverprofile=%s.%d" % (os.environ["VERIF_COVER"], n)]
+        mod = cp
     try:
         rc, out = sh(cmd, cwd=mod, env=e, timeout=timeout + 60)
     except subprocess.TimeoutExpired:
